@@ -90,6 +90,7 @@ type Record struct {
 	Expect  []ObsVal            `json:"expect_obs,omitempty"`
 	Note    string              `json:"note,omitempty"`
 	Strs    map[string][]string `json:"vocab,omitempty"`
+	Pkg     string              `json:"pkg,omitempty"` // package the harness lives in ("" = the gmars package)
 }
 
 type ObsVal struct {
@@ -149,6 +150,7 @@ func runJob(job *Job) (res *JobResult) {
 	}
 	pkg := job.Program.Pkg
 	ex := sym.NewExec(st, solver, job.Program.Prog, pkg)
+	ex.CmdPkg = job.Program.Cmd
 	ex.Debug = os.Getenv("VERIF_DEBUG") == "1"
 	for k, v := range job.Params {
 		ex.Params[k] = v
@@ -157,6 +159,9 @@ func runJob(job *Job) (res *JobResult) {
 		ex.Known[k] = v
 	}
 	fn := pkg.Func("VerifHarness_" + job.Spec.Name)
+	if job.Spec.WithCmd && job.Program.Cmd != nil {
+		fn = job.Program.Cmd.Func("VerifHarness_" + job.Spec.Name)
+	}
 	if fn == nil {
 		res.Inconclusive = append(res.Inconclusive, "harness function not found: "+job.Spec.Name)
 		return res
@@ -246,7 +251,7 @@ func runJob(job *Job) (res *JobResult) {
 func inputTerms(f *sym.State) []*smt.Term {
 	var ts []*smt.Term
 	for _, in := range f.Inputs {
-		if in.Term != nil {
+		if in.Term != nil && !in.Term.IsConst() {
 			ts = append(ts, in.Term)
 		}
 	}
@@ -255,11 +260,17 @@ func inputTerms(f *sym.State) []*smt.Term {
 
 func recordFromModel(job *Job, f *sym.State, model map[int]uint64) *Record {
 	rec := &Record{Harness: job.Spec.Name, Params: job.Params, Values: map[string][]uint64{}, Known: job.Known}
+	if job.Spec.WithCmd {
+		rec.Pkg = "./cmd/gmars"
+	}
 	for _, in := range f.Inputs {
 		if in.Term == nil {
 			continue
 		}
 		v := model[in.Term.ID]
+		if in.Term.IsConst() {
+			v = in.Term.Val
+		}
 		vals := rec.Values[in.Name]
 		for len(vals) <= in.Idx {
 			vals = append(vals, 0)
@@ -481,9 +492,19 @@ func replayRecords(recs []*Record, budgetMs int) ([]*NativeResult, error) {
 		return nil, err
 	}
 	defer os.RemoveAll(dir)
-	om, err := overlayMap(true)
+	contents, err := overlayContents(true)
 	if err != nil {
 		return nil, err
+	}
+	om := map[string]string{}
+	k := 0
+	for virt, b := range contents {
+		real := filepath.Join(dir, fmt.Sprintf("ov%03d_%s", k, filepath.Base(virt)))
+		k++
+		if err := os.WriteFile(real, b, 0o644); err != nil {
+			return nil, err
+		}
+		om[virt] = real
 	}
 	ov, _ := json.Marshal(map[string]interface{}{"Replace": om})
 	ovPath := filepath.Join(dir, "overlay.json")
@@ -508,7 +529,11 @@ func replayRecords(recs []*Record, budgetMs int) ([]*NativeResult, error) {
 			b, _ := json.Marshal(recs[i])
 			os.WriteFile(filepath.Join(recDir, fmt.Sprintf("%06d.json", i)), b, 0o644)
 		}
-		cmd := exec.Command("go", "test", "-vet=off", "-count=1", "-overlay", ovPath, "-run", "^TestVerifReplay$", "-timeout", "20m", ".")
+		pkgArg := "."
+		if len(recs) > 0 && recs[0].Pkg != "" {
+			pkgArg = recs[0].Pkg
+		}
+		cmd := exec.Command("go", "test", "-vet=off", "-count=1", "-overlay", ovPath, "-run", "^TestVerifReplay$", "-timeout", "20m", pkgArg)
 		cmd.Dir = RepoDir
 		cmd.Env = append(goEnv(), "VERIF_REPLAY_DIR="+recDir, fmt.Sprintf("VERIF_REPLAY_BUDGET_MS=%d", budgetMs))
 		out, err := cmd.CombinedOutput()
